@@ -43,8 +43,11 @@ def parseObs (w : String) : Option Obs :=
 def parseImpl (impl : String) : Option ObsSt :=
   match words impl with
   | s :: t :: g :: r :: rl :: h :: rest => do
-    let s ← parseBit (← parseKV "s" s)
-    let t ← (← parseKV "t" t).toNat?
+    -- `x` = the seam into the unexported field is gone: unknown, not checked
+    let sv ← parseKV "s" s
+    let s ← if sv == "x" then some none else (parseBit sv).map some
+    let tv ← parseKV "t" t
+    let t ← if tv == "x" then some none else tv.toNat?.map some
     let g ← (← parseKV "g" g).toNat?
     let r ← (← parseKV "r" r).toNat?
     let rl ← parseKV "rl" rl
